@@ -7,6 +7,7 @@ import sys
 import traceback
 
 sys.path.insert(0, os.environ.get('COPULAS_REPO', '/repo'))
+sys.set_int_max_str_digits(0)
 
 
 def main():
